@@ -10,7 +10,7 @@ from ..runner import Run, h64
 RULE = (
     "finite enumeration. (A) for every rule r and naming n (its id and each alias, used consistently): enabled in {unset,true,false} in each of the four layers pyproject.toml [tool.pymarkdown], default "
     "configuration file (.pymarkdown JSON / .pymarkdown.yaml / .pymarkdown.yml), --config file (JSON / YAML / TOML), --set plugins.n.enabled=$!v, crossed with the command line {none, -e n, -d n, both, -d '*'}: "
-    "3^4*5 = 405 combinations per (r, n); quick = every rule with one naming chosen by seed, thorough = every (r, n); file formats rotate with the combination index; oracle (model in this file): "
+    "3^4*5 = 405 combinations per (r, n); quick = every rule with one naming chosen by seed, thorough = every (r, n); file formats rotate with the combination index; every file also carries unrelated entries and layers that do not mention the rule are sometimes present as files that mention only other things; oracle (model in this file): "
     "False if disabled on the command line (or '*'), else True if enabled on the command line, else the value of the most specific layer that sets it (--set > --config > default file > pyproject), else the documented default; "
     "observed in the ENABLED (CURRENT) column of `plugins list --all`. (B) every configuration item of every rule taken from the documentation tables (newdocs/src/plugins/rule_*.md) x {valid non-default value, wrong type, "
     "string outside the documented enumeration} x {lenient, --strict-config, mode.strict-config} x layer; oracle: `plugins info <id>` shows the value when valid, the documented default when invalid and lenient; strict + invalid => exit 1 "
@@ -66,17 +66,24 @@ def setup_layers(sb, naming, layers, idx, extra=None):
     argv = []
     sb.clear()
 
+    # every configuration file also carries an unrelated entry, and a layer that does not mention the rule may
+    # still be present as a file that only mentions other things: neither may influence the rule under test
+    noise_rule = "md002" if naming not in ("md002", "first-heading-h1", "first-header-h1") else "md006"
+
     def tree(v):
-        d = {"plugins": {naming: {"enabled": v}}}
+        d = {"plugins": {noise_rule: {"enabled": False}}, "log": {"level": "ERROR"}}
+        if v is not None:
+            d["plugins"][naming] = {"enabled": v}
         return d
 
-    if py is not None:
+    h = h64(f"{naming}:{idx}")  # formats and the presence of rule-free files vary pseudo-randomly but reproducibly
+    if py is not None or h % 4 == 0:
         sb.write("pyproject.toml", dump("toml", {"tool": {"pymarkdown": tree(py)}}))
-    if df is not None:
-        name, fmt = DEFAULT_FILES[idx % 3]
+    if df is not None or (h >> 2) % 4 == 0:
+        name, fmt = DEFAULT_FILES[(h >> 4) % 3]
         sb.write(name, dump(fmt, tree(df)))
-    if cf is not None:
-        fmt = CONFIG_FORMATS[(idx // 3) % 3]
+    if cf is not None or (h >> 6) % 2 == 0:
+        fmt = CONFIG_FORMATS[(h >> 8) % 3]
         sb.write("cfg." + fmt, dump(fmt, tree(cf)))
         argv += ["--config", "cfg." + fmt]
     if st is not None:
